@@ -100,6 +100,18 @@ R5 = {   # round 5: source files mutA / mutB of the worktree, recorded as <id>-E
  "C19-E": ("C19", False, "Validator.tla: attributes typed by a pattern-restricted union and by the plain union, deviation baduc (a value no member type can read)"),
  "C19-F": ("C19", False, "the document as the lxml payload of an envelope element (not the top of its tree)"),
 }
+R6 = {   # round 6: one change per property (source mutA of /tmp/mut6/<id>), recorded as <id>-E
+ "C02-E": ("C02", True, ""),
+ "C06-E": ("C06", False, "identity-shallow documents: the key references of a root-level constraint as leaves directly under the root (above the streamed depth of lazy=2), the keys inside the chunks"),
+ "C07-E": ("C07", True, ""),
+ "C10-E": ("C10", False, "spec/HistoryDef.tla: identity fields read from DEFAULTS that depend on the dynamic type (D1 / D2), histories of two calls replayed on one schema object"),
+ "C11-E": ("C11", True, ""),
+ "C13-E": ("C13", False, "channels text@ftps / bytes@s3 / bytesio@https: data with a base URL of another non-local scheme (Defuse.tla: remote = every scheme that is not local)"),
+ "C14-E": ("C14", False, "spec/ElemRestriction.tla: (base, derived) pairs of local element declarations (type x fixed/default x nillable), inclusion decided over text x xsi:nil"),
+ "C15-E": ("C15", False, "ContentModel.tla family WildPair (XSD 1.1): namespace lists and notNamespace negations side by side, with a third namespace that no constraint names; was caught by C16 (is_overlap against the set reading) before"),
+ "C18-E": ("C18", True, ""),
+ "C20-E": ("C20", True, ""),
+}
 SRC = {}
 if len(sys.argv) > 1 and sys.argv[1] == "2":
     R = R2
@@ -112,9 +124,14 @@ if len(sys.argv) > 1 and sys.argv[1] == "4":
 if len(sys.argv) > 1 and sys.argv[1] == "5":
     R = R5
     SRC = {k: k[:-1] + {"E": "A", "F": "B"}[k[-1]] for k in R5}
+ROOT = "/tmp/mut"
+if len(sys.argv) > 1 and sys.argv[1] == "6":
+    R = R6
+    SRC = {k: k[:-1] + "A" for k in R6}
+    ROOT = "/tmp/mut6"
 for mid, (chk, first, how) in R.items():
     pid, v = SRC.get(mid, mid).split("-")
-    src = pathlib.Path(f"/tmp/mut/{pid}/out")
+    src = pathlib.Path(f"{ROOT}/{pid}/out")
     dst = pathlib.Path(f"/verif/seeded/{mid}"); dst.mkdir(parents=True, exist_ok=True)
     shutil.copy(src / f"mut{v}.diff", dst / "patch.diff")
     shutil.copy(src / f"demo{v}.py", dst / "demo.py")
